@@ -133,7 +133,8 @@ func init() {
 		"Definition compile (getStateEnabled : bool) (g : gstate) (opt : copt) : gstate * cresult :=\n"+
 		"  let '(g', o) := g_compile fixed g opt in (g', cresult_of o).\n"+
 		"Definition runner_handler_sources : list string := model_handler_sources.\n"+
-		"Definition runner_node_edge_sources : list string := model_node_edge_sources.\n")
+		"Definition runner_node_edge_sources : list string := model_node_edge_sources.\n"+
+		"Definition node_loop_sorted : bool := true.\n")
 }
 
 // error text family -> class of Model/Builder.v (the table of harness/cmd/c20/exec.go: families)
@@ -1177,6 +1178,9 @@ type c20CompileInfo struct {
 	handlerSource []string // where the runner's three handler managers take their maps from
 	prenodeLocal  bool     // the pre-node handlers of the runner are the local copy
 	haveRunner    bool
+	keySlice      string // local slice that collects the keys of g.nodes ("" = none)
+	keysSorted    bool   // ... and has been handed to sort.Strings
+	loopOrder     string // how the node loop visits g.nodes: "map" (range over the map) or "sorted" (range over the sorted keys)
 }
 
 func c20Root(e ast.Expr) (base string, first string) {
@@ -1316,6 +1320,14 @@ func c20CompileSpecial(info *c20CompileInfo) func(t *c20Tr, l []ast.Stmt, m c20M
 			return m.ret(t, &ast.ReturnStmt{Results: []ast.Expr{ast.NewIdent("nil"), ast.NewIdent(v)}})
 		}
 		switch x := l[0].(type) {
+		case *ast.ExprStmt:
+			// sort.Strings(names): the collected keys of g.nodes are put in order
+			if info.keySlice != "" && c20Squash(types.ExprString(x.X)) == "sort.Strings("+info.keySlice+")" && !m.inLoop {
+				info.keysSorted = true
+				r, err := rest()
+				return r, true, err
+			}
+			return "", false, nil
 		case *ast.AssignStmt:
 			if len(x.Lhs) == 2 && len(x.Rhs) == 1 {
 				return "", false, nil
@@ -1441,47 +1453,14 @@ func c20CompileSpecial(info *c20CompileInfo) func(t *c20Tr, l []ast.Stmt, m c20M
 				return ""
 			}
 			k, v := name(x.Key), name(x.Value)
-			switch xs {
-			case t.recv + ".toValidateMap":
-				// for _, v := range g.toValidateMap { if len(v) > 0 { return nil, E } }
-				if len(x.Body.List) == 1 && v != "" {
-					if is, ok := x.Body.List[0].(*ast.IfStmt); ok && is.Init == nil && is.Else == nil && c20Squash(types.ExprString(is.Cond)) == "len("+v+")>0" && len(is.Body.List) == 1 {
-						if ret, ok := is.Body.List[0].(*ast.ReturnStmt); ok {
-							re, err := m.ret(t, ret)
-							if err != nil {
-								return "", false, err
-							}
-							r, err := rest()
-							return "if negb (is_nil (g_pending g)) then " + re + "\n" + ind + "else " + r, true, err
-						}
-					}
-				}
-				return fail("loop over g.toValidateMap not recognised")
-			case t.recv + ".nodes":
-				// for key, node := range g.nodes { if node.inputType() == nil || node.outputType() == nil { return nil, E } }
-				if len(x.Body.List) == 1 && v != "" {
-					if is, ok := x.Body.List[0].(*ast.IfStmt); ok && is.Init == nil && is.Else == nil && len(is.Body.List) == 1 &&
-						c20Squash(types.ExprString(is.Cond)) == v+".inputType()==nil||"+v+".outputType()==nil" {
-						if ret, ok := is.Body.List[0].(*ast.ReturnStmt); ok {
-							re, err := m.ret(t, ret)
-							if err != nil {
-								return "", false, err
-							}
-							r, err := rest()
-							return "if has_untyped g then " + re + "\n" + ind + "else " + r, true, err
-						}
-					}
-				}
-				// the node loop: sub graphs are compiled, every node gets its chanCall
-				if k == "" || v == "" || info.chanPerNode {
-					return fail("loop over g.nodes not recognised")
-				}
+			// the body of the node loop (key variable k, node variable v)
+			nodeLoop := func(k, v string, list []ast.Stmt) (string, bool, error) {
 				subErr, entered := false, false
-				for i, s := range x.Body.List {
+				for i, s := range list {
 					if as, ok := s.(*ast.AssignStmt); ok && len(as.Lhs) == 2 && len(as.Rhs) == 1 && c20Squash(types.ExprString(as.Lhs[1])) == "err" &&
 						c20Squash(types.ExprString(as.Rhs[0])) == v+".compileIfNeeded(ctx)" && as.Tok == token.DEFINE {
-						if i+1 < len(x.Body.List) {
-							if is, ok := x.Body.List[i+1].(*ast.IfStmt); ok && is.Init == nil && is.Else == nil && c20Squash(types.ExprString(is.Cond)) == "err!=nil" && len(is.Body.List) == 1 {
+						if i+1 < len(list) {
+							if is, ok := list[i+1].(*ast.IfStmt); ok && is.Init == nil && is.Else == nil && c20Squash(types.ExprString(is.Cond)) == "err!=nil" && len(is.Body.List) == 1 {
 								if ret, ok := is.Body.List[0].(*ast.ReturnStmt); ok && len(ret.Results) == 2 && c20IsNil(ret.Results[0]) && types.ExprString(ret.Results[1]) == "err" && !subErr {
 									subErr = true
 									continue
@@ -1522,6 +1501,67 @@ func c20CompileSpecial(info *c20CompileInfo) func(t *c20Tr, l []ast.Stmt, m c20M
 				}
 				r, err := rest()
 				return "let subErr := sub_graph_error g in\n" + ind + "if is_some subErr then " + re + "\n" + ind + "else " + r, true, err
+			}
+			// for _, name := range names { node := g.nodes[name]; … }: the node loop over the sorted keys
+			if info.keySlice != "" && xs == info.keySlice {
+				if !info.keysSorted || (k != "" && k != "_") || v == "" || info.chanPerNode || len(x.Body.List) < 2 {
+					return fail("loop over the keys of g.nodes not recognised")
+				}
+				as, ok := x.Body.List[0].(*ast.AssignStmt)
+				if !ok || as.Tok != token.DEFINE || len(as.Lhs) != 1 || len(as.Rhs) != 1 || name(as.Lhs[0]) == "" ||
+					c20Squash(types.ExprString(as.Rhs[0])) != t.recv+".nodes["+v+"]" {
+					return fail("loop over the keys of g.nodes: the node is not taken from g.nodes[%s] first", v)
+				}
+				info.loopOrder = "sorted"
+				return nodeLoop(v, name(as.Lhs[0]), x.Body.List[1:])
+			}
+			switch xs {
+			case t.recv + ".toValidateMap":
+				// for _, v := range g.toValidateMap { if len(v) > 0 { return nil, E } }
+				if len(x.Body.List) == 1 && v != "" {
+					if is, ok := x.Body.List[0].(*ast.IfStmt); ok && is.Init == nil && is.Else == nil && c20Squash(types.ExprString(is.Cond)) == "len("+v+")>0" && len(is.Body.List) == 1 {
+						if ret, ok := is.Body.List[0].(*ast.ReturnStmt); ok {
+							re, err := m.ret(t, ret)
+							if err != nil {
+								return "", false, err
+							}
+							r, err := rest()
+							return "if negb (is_nil (g_pending g)) then " + re + "\n" + ind + "else " + r, true, err
+						}
+					}
+				}
+				return fail("loop over g.toValidateMap not recognised")
+			case t.recv + ".nodes":
+				// for key, node := range g.nodes { if node.inputType() == nil || node.outputType() == nil { return nil, E } }
+				if len(x.Body.List) == 1 && v != "" {
+					if is, ok := x.Body.List[0].(*ast.IfStmt); ok && is.Init == nil && is.Else == nil && len(is.Body.List) == 1 &&
+						c20Squash(types.ExprString(is.Cond)) == v+".inputType()==nil||"+v+".outputType()==nil" {
+						if ret, ok := is.Body.List[0].(*ast.ReturnStmt); ok {
+							re, err := m.ret(t, ret)
+							if err != nil {
+								return "", false, err
+							}
+							r, err := rest()
+							return "if has_untyped g then " + re + "\n" + ind + "else " + r, true, err
+						}
+					}
+				}
+				// for name := range g.nodes { names = append(names, name) }: the keys of the nodes, to be sorted
+				if k != "" && v == "" && len(x.Body.List) == 1 && info.keySlice == "" && !m.inLoop {
+					if as, ok := x.Body.List[0].(*ast.AssignStmt); ok && as.Tok == token.ASSIGN && len(as.Lhs) == 1 && len(as.Rhs) == 1 {
+						if id, ok := as.Lhs[0].(*ast.Ident); ok && c20Squash(types.ExprString(as.Rhs[0])) == "append("+id.Name+","+k+")" {
+							info.keySlice = id.Name
+							r, err := rest()
+							return r, true, err
+						}
+					}
+				}
+				// the node loop: sub graphs are compiled, every node gets its chanCall
+				if k == "" || v == "" || info.chanPerNode {
+					return fail("loop over g.nodes not recognised")
+				}
+				info.loopOrder = "map"
+				return nodeLoop(k, v, x.Body.List)
 			case t.recv + ".handlerPreNode":
 				// for key, handlers := range g.handlerPreNode { handlerPreNode[key] = append([]handlerPair(nil), handlers...) }
 				if k != "" && v != "" && len(x.Body.List) == 1 && t.isLocal("handlerPreNode") && !m.inLoop &&
@@ -1654,5 +1694,7 @@ func c20Compile(f *ast.File, errVars map[string]string) (string, error) {
 	b.WriteString("(* where the runner takes the tables it keeps from: a field of g is shared with the builder *)\n")
 	fmt.Fprintf(&b, "Definition runner_handler_sources : list string := %s.\n", lst(info.handlerSource))
 	fmt.Fprintf(&b, "Definition runner_node_edge_sources : list string := %s.\n", lst(info.nodeEdges))
+	b.WriteString("(* the loop of compile that compiles the child graphs: over the sorted keys of g.nodes (true) or in map order (false) *)\n")
+	fmt.Fprintf(&b, "Definition node_loop_sorted : bool := %v.\n", info.loopOrder == "sorted")
 	return b.String(), nil
 }
